@@ -8,7 +8,7 @@ from ..core.par import run_chunks, mark
 from ..comp import filelock as F
 
 ID = 'C12'
-MODULE = 'AiutiVerif.FileLock.Props'
+MODULE = 'AiutiVerif.FileLock.C12All'
 LEAN_SUBDIRS = ['AiutiVerif/FileLock', 'AiutiVerif/Core', 'Driver.lean']
 THEOREMS = [
     'AiutiVerif.FileLock.C12_refines_contract',
@@ -20,6 +20,11 @@ THEOREMS = [
     'AiutiVerif.FileLock.C12_unheld_release_noop',
     'AiutiVerif.FileLock.C12_no_fd_leak',
     'AiutiVerif.FileLock.C12_time_bounds',
+    'AiutiVerif.FileLock.Small.C12_inside_is_locked',
+    'AiutiVerif.FileLock.Small.C12_thread_lock_not_left_behind',
+    'AiutiVerif.FileLock.Small.C12_unowned_is_pristine',
+    'AiutiVerif.FileLock.Small.C12_reacquirable_under_contention',
+    'AiutiVerif.FileLock.Small.C12_calls_never_stuck',
 ]
 ASSUMPTIONS = [
     'kernel flock contract (per open file description, exclusive, dropped on close) - the real kernel is used '
